@@ -228,6 +228,15 @@ def selfL : List Spec → Bool
   | s :: ss => selfP s && selfL ss
 end
 
+/-- a container pattern meets a target that is no instance of its container class -/
+def kindMismatch : Spec → V → Bool
+  | .list _, t => (match t.unsub with | .list _ => false | _ => true)
+  | .set _, t => (match t.unsub with | .set _ => false | _ => true)
+  | .fset _, t => (match t.unsub with | .fset _ => false | _ => true)
+  | .tuple _, t => (match t.unsub with | .tuple _ => false | _ => true)
+  | .dict _, t => (match t.unsub with | .dict _ => false | _ => true)
+  | _, _ => false
+
 /-- no later member `==` an earlier one (what `set(...)` keeps) -/
 def distinctFrom : List V → List V → Bool
   | _, [] => true
@@ -469,6 +478,7 @@ structure Facts9 where
   identity : List (String × String × Bool)
   moduleWrites : List (String × String × String)
   userAttrs : List (String × String)
+  targetTests : List (String × String)
 
 /-- the attributes `_glom_match` / `_handle_dict` read directly off user objects: `.key` /
     `.default` of a key that was just found to be an `Optional` / `Required`, and `.items` of a
@@ -477,6 +487,14 @@ structure Facts9 where
 def expectedUserAttrs : List (String × String) :=
   [("_handle_dict", "key.default"), ("_handle_dict", "key.key"), ("_handle_dict", "maybe_spec_key.key"),
    ("_handle_dict", "target.items")]
+
+/-- how the class of the target is tested: the type rule and the container rules by
+    `isinstance` (an instance of a subclass of dict / list / set / frozenset / tuple is matched
+    like an instance of the builtin class — the model's `t.unsub`), Regex by exact type -/
+def expectedTargetTests : List (String × String) :=
+  [("_glom_match", "not isinstance(target, spec)"), ("_glom_match", "not isinstance(target, type(spec))"),
+   ("_glom_match", "not isinstance(target, tuple)"), ("_handle_dict", "not isinstance(target, dict)"),
+   ("Regex.glomit", "type(target) not in _RE_TYPES")]
 
 def expectedPrecedence : List (String × String) :=
   [("type(match) in (Required, Optional)", "match = match.key"),
@@ -569,6 +587,9 @@ def precStep (recur : Spec → Nat) : List (String × String) → KeyKind → Sp
       method / `setattr` on is the scope or a local ALL of whose bindings in that function are
       fresh displays / comprehensions — never the target or the spec;
     * TypeMatchError is a MatchError and a TypeError; `Match.matches` catches GlomError;
+    * **which targets a rule applies to**: the class of the target is tested with `isinstance`
+      in the type, dict, list / set / frozenset and tuple rules, by exact type in Regex
+      (`expectedTargetTests`);
     * **callables are only called**: the matcher reads no attribute of a user's spec object or
       target beyond `expectedUserAttrs`;
     * **no state between calls**: no function or method of matching.py stores into, deletes from
@@ -579,6 +600,7 @@ def precStep (recur : Spec → Nat) : List (String × String) → KeyKind → Sp
       default given" in Match / And / Or / Switch / Optional) and `RAISE` (Check) in particular;
       `identityExempt` lists the two that do not (see there). -/
 def WF9 (env : Env) (f : Facts9) : Bool :=
+  f.targetTests == expectedTargetTests &&
   f.userAttrs == expectedUserAttrs &&
   f.moduleWrites.isEmpty &&
   markersOK f.identity &&
